@@ -11,13 +11,23 @@ import Optyx.Syntax
 
 namespace Optyx
 
-class NumAlg (α : Type) extends Add α, Sub α, Mul α, Div α, Neg α, Zero α where
+class NumAlg (α : Type) where
+  zero  : α
+  add   : α → α → α
+  sub   : α → α → α
+  mul   : α → α → α
+  div   : α → α → α
+  neg   : α → α
+  pow   : α → α → α
   ofRat : Rat → α
   ln2   : α
   ln10  : α
-  pow   : α → α → α
-  /-- the 18 non-`neg` entries of `UnaryOp._OPS` (`neg` is `Neg.neg`). -/
+  /-- the 18 non-`neg` entries of `UnaryOp._OPS` (`neg` is the field above). -/
   fn    : UnOp → α → α
+
+/- Deliberately *not* `extends Add α, …`: a second path to `Add ℝ` next to Mathlib's would
+   make `ring`/`simp` see two syntactically different additions.  The ℝ instance comes with
+   `rfl` simp lemmas turning every field into the ordinary operation. -/
 
 namespace NumAlg
 variable {α : Type} [NumAlg α]
@@ -28,31 +38,31 @@ def cst : Cst → α
   | .ln10 => ln10
 
 def binop : BinOp → α → α → α
-  | .add, a, b => a + b
-  | .sub, a, b => a - b
-  | .mul, a, b => a * b
-  | .div, a, b => a / b
+  | .add, a, b => add a b
+  | .sub, a, b => sub a b
+  | .mul, a, b => mul a b
+  | .div, a, b => div a b
   | .pow, a, b => pow a b
 
 def unop : UnOp → α → α
-  | .neg, a => -a
+  | .neg, a => neg a
   | op, a => fn op a
 
 /-- `sum(xs)` as a right fold (the association is irrelevant over ℝ; float
     association is outside the model, DESIGN §4.5). -/
 def sum : List α → α
-  | [] => 0
-  | a :: t => a + sum t
+  | [] => zero
+  | a :: t => add a (sum t)
 
 /-- `np.dot(c, xs)` with rational coefficients. -/
 def wsum : List Rat → List α → α
-  | c :: cs, a :: t => (ofRat c : α) * a + wsum cs t
-  | _, _ => 0
+  | c :: cs, a :: t => add (mul (ofRat c) a) (wsum cs t)
+  | _, _ => zero
 
 /-- `np.dot(xs, ys)`. -/
 def dotp : List α → List α → α
-  | a :: t, b :: u => a * b + dotp t u
-  | _, _ => 0
+  | a :: t, b :: u => add (mul a b) (dotp t u)
+  | _, _ => zero
 
 /-- `x @ Q @ x` = Σ_i x_i · (Σ_j Q_ij x_j). -/
 def quadForm (q : List (List Rat)) (xs : List α) : α :=
@@ -65,6 +75,11 @@ def ratToFloat (q : Rat) : Float := Float.ofInt q.num / Float.ofNat q.den
 
 instance : NumAlg Float where
   zero := 0.0
+  add a b := a + b
+  sub a b := a - b
+  mul a b := a * b
+  div a b := a / b
+  neg a := -a
   ofRat := ratToFloat
   ln2 := Float.log 2.0
   ln10 := Float.log 10.0
